@@ -6,7 +6,7 @@ from lib.coqterm import cN, clist, copt, cstr_utf8
 
 ID = "C23"
 QUICK_N = 1000
-THOROUGH_N = 30000
+THOROUGH_N = 5000
 SHARD = 400
 RULE = ("Registry histories (29 fixed + 60 random quick / 600 thorough): 2-5 updates of the mode/server options on ONE real "
         "Proxyserver with really bound sockets (10 specs on 127.0.0.1-7 port 0, three of them on ports the harness occupies so "
